@@ -107,9 +107,12 @@ package shrex
 //@ func (*Server).streamHandler$1
 //@   property C09
 //@   noframe
-//@   requires !$StreamEnded && !$AccOpen && !$MemHeld && !$Validated && !$StatusSent && !$ReaderOK
-//@   havoc $StreamEnded $AccOpen $MemHeld $Validated $StatusSent $ReaderOK $RespRead
-//@   callpre Server).handleDataRequest: $arg2 == requestID && $arg3 == s
+//@   requires !$StreamEnded && !$AccOpen && !$MemHeld && !$Validated && !$StatusSent && !$ReaderOK && !$ReqMade
+//@   havoc $StreamEnded $AccOpen $MemHeld $Validated $StatusSent $ReaderOK $RespRead $ReqMade
+// (the request object a stream is decoded into is made for that stream - by this very run of the handler:
+// $ReqMade - so that concurrent streams of one protocol never decode into each other's request)
+//@   param id: ensures $ReqMade
+//@   callpre Server).handleDataRequest: $arg2 == requestID && $arg3 == s && $ReqMade
 //@   ensures $StreamEnded
 
 //@ func (*Server).Start
